@@ -130,3 +130,11 @@ def fingerprint(r, clauses):
 def sample(r):
     return dict(argv=r['argv'], result=r['result'][:5], shown=r['shown'], not_found=r['not_found'],
                 pels=len(r['files']))
+
+
+def corrupt(r):
+    if r['q']['kind'] in ('plid', 'src', 'srcex'):
+        r['result'] = r['result'] + [[1, 2, 3, 4]]
+    else:
+        r['not_found'] = not r['not_found']
+    return r
